@@ -125,7 +125,7 @@ def code_words(line):
     return [t.lower() for t in pc.TOKEN_RE.findall(line) if t[0].isalpha() or t[0] == "_"]
 
 
-def garbage_ok(text):
+def garbage_ok(text, extending=False):
     """the replaced body is made of well-formed tokens, none a method terminator, and its first non-comment token does not
     extend the header"""
     first = None
@@ -147,7 +147,7 @@ def garbage_ok(text):
             first = t.lower()
     if any(ord(ch) > 126 for ch in text):
         return False
-    return first not in HEADER_EXT
+    return (first in HEADER_EXT) if extending else (first not in HEADER_EXT)
 
 
 def spans_of(lines):
@@ -295,8 +295,9 @@ class CaseGen:
             return r.choice(self.lits)
         return r.choice([";c", ";", ";endproc x", ";note 'q"])
 
-    def soup_lines(self, n_body_old):
-        """garbage body: 1..40 tokens on one or several lines (comments only at the end of a line)"""
+    def soup_lines(self, n_body_old, extending=False):
+        """garbage body: 1..40 tokens on one or several lines (comments only at the end of a line); extending: the first
+        token is one that continues a method header"""
         r = self.rng
         while True:
             n = r.choice([1, 2, 3, 4, 5, 6, 8, 10, 15, 25, 40]) if r.random() < 0.6 else r.randint(1, 40)
@@ -313,6 +314,13 @@ class CaseGen:
                 # same number of lines as before: pad with empty lines (before or after)
                 pad = [""] * (n_body_old - len(lines))
                 lines = lines + pad if r.random() < 0.7 else pad + lines
+            if extending:
+                first = r.choice(["(", "(", "(", "#", "private", "override", "final", "forward", "external", "protected"])
+                k0 = next((i for i, l in enumerate(lines) if l.strip()), 0)
+                lines[k0] = " " + self.kwcase(first) + " " + lines[k0].strip()
+                if garbage_ok("\n".join(lines), extending=True):
+                    return lines
+                continue
             if garbage_ok("\n".join(lines)):
                 return lines
 
@@ -471,6 +479,13 @@ def gen_cases(ctx, hb=None):
                 assert lj[mj["first_line"]].rstrip("\r") == m["header"]
                 _k, nb = random_edit(lj, nl, mj)
                 add("G", lj, apply_edit(lj, mj, nb, nl), nl, mj["first_line"], mj["n_lines"], len(nb) + 2)
+        # (H) garbage whose first token continues the HEADER (`(` after a header without parameter list, `#`, a modifier):
+        #     the method itself may then come out differently or not at all, but everything else must stay as it was
+        for m in ms:
+            old = body_of(lines, m)
+            for _ in range((3 if q else 8) * reps):
+                nb = g.soup_lines(len(old), extending=True)
+                add("H", lines, apply_edit(lines, m, nb, nl), nl, m["first_line"], m["n_lines"], len(nb) + 2)
         if ms:
             m = max(ms, key=lambda x: x["first_line"])
             cut = m["first_line"] + m["n_lines"] - 1
@@ -661,6 +676,8 @@ def _oracle(case, out, stats=None):
         return _oracle_trunc(fl, n_old, o1, o2, kids1, kids2, h1, k, e1, e2, c1, c2, idx1)
     dl = n_new - n_old
     dc = ncp(b) - ncp(a)
+    if kind == "H":
+        return _oracle_ext(fl, n_old, n_new, dl, dc, o1, o2, kids1, kids2, h1, k, e1, e2, c1, c2, idx1, cont_kinds)
     # 1. same number of declarations
     if len(kids1) != len(kids2):
         return "[child-count] %d top-level declarations before the edit, %d after" % (len(kids1), len(kids2))
@@ -729,6 +746,71 @@ def _oracle(case, out, stats=None):
         sl, sc, el, ec, msg = diag_fields(d)
         if not (lo <= sl <= hi_new and lo <= el <= hi_new):
             bad.append(d)
+    if bad:
+        if all(diag_fields(d)[:4] == (0, 0, 0, 0) for d in bad):
+            return ("[eof-diagnostic-at-origin] %d new diagnostic(s) with range 0:0-0:0, outside the edited method (lines %d..%d): %s"
+                    % (len(bad), lo, hi_new, show_diag(bad[0])))
+        d = [x for x in bad if diag_fields(x)[:4] != (0, 0, 0, 0)][0]
+        return "[diagnostic-outside-method] a new diagnostic lies outside the edited method (lines %d..%d): %s" % (lo, hi_new, show_diag(d))
+    return None
+
+
+def _oracle_ext(fl, n_old, n_new, dl, dc, o1, o2, kids1, kids2, h1, k, e1, e2, c1, c2, idx1, cont_kinds):
+    """the garbage continues the header: nothing is required of the edited method itself (it may parse differently, or
+    not at all and leave pieces behind), but every OTHER declaration keeps its subtree and outline entry, in order, whatever
+    else appears must lie on the method's lines, and so must every new diagnostic"""
+    last_new = fl + n_new - 1
+    want = [(j, kids1[j] if j < k else shift_dump(kids1[j], dc, dl)) for j in range(len(kids1)) if j != k]
+    wi = 0
+    for c in kids2:
+        if wi < len(want) and c == want[wi][1]:
+            wi += 1
+            continue
+        h = head_of(c)
+        if h["kind"] == kinds()["AstComment"]:
+            continue      # a comment in front of a method is layout: a node of its own only when the method does not parse
+        if not (fl <= h["sl"] and h["el"] <= last_new):
+            if wi < len(want):
+                return ("[other-declaration-changed] top-level declaration %d (%s the edited method) is missing or changed: expected %s, found %s"
+                        % (want[wi][0], "before" if want[wi][0] < k else "after", want[wi][1][:300], c[:300]))
+            return "[other-declaration-changed] an unexpected top-level node outside the edited method's lines %d..%d: %s" % (fl, last_new, c[:300])
+    if wi < len(want):
+        return ("[other-declaration-changed] top-level declaration %d (%s the edited method) disappeared: %s"
+                % (want[wi][0], "before" if want[wi][0] < k else "after", want[wi][1][:300]))
+    if (c1 is None) != (c2 is None):
+        return "[outline-entry-changed] the class/module symbol appears/disappears"
+    if c1 is not None:
+        ci = next((i for i, h in enumerate(h1) if h["kind"] in cont_kinds), None)
+        expc = c1 if (ci is None or ci < k) else shift_entry(c1, dl)
+        if expc != c2:
+            return "[outline-entry-changed] the class/module symbol changed: %s -> %s" % ("|".join(c1), "|".join(c2))
+    wante = [(j, e1[pos] if j < k else shift_entry(e1[pos], dl)) for pos, j in enumerate(idx1) if j != k]
+    wi = 0
+    for e in e2:
+        if wi < len(wante) and e == wante[wi][1]:
+            wi += 1
+            continue
+        r = e[3].split(":")
+        if not (fl <= int(r[0]) and int(r[2]) <= last_new):
+            return "[outline-entry-changed] outline entry %s is neither an unchanged entry of another declaration nor inside the edited method" % "|".join(e)
+    if wi < len(wante):
+        return "[outline-entry-changed] the outline entry of declaration %d disappeared or changed: %s" % (wante[wi][0], "|".join(wante[wi][1]))
+    lo, hi_old, hi_new = fl, fl + n_old - 1, last_new
+    need = Counter()
+    for d in o1["diags"]:
+        sl, sc, el, ec, msg = diag_fields(d)
+        if lo <= sl <= hi_old:
+            continue
+        if sl > hi_old:
+            need["%d:%d:%d:%d:%s" % (sl + dl, sc, el + dl, ec, msg)] += 1
+        else:
+            need[d] += 1
+    have = Counter(o2["diags"])
+    lost = need - have
+    if lost:
+        d = sorted(lost)[0]
+        return "[diagnostic-lost] a diagnostic of another declaration disappears or moves: %s" % show_diag(d)
+    bad = [d for d in (have - need).elements() if not (lo <= diag_fields(d)[0] <= hi_new and lo <= diag_fields(d)[2] <= hi_new)]
     if bad:
         if all(diag_fields(d)[:4] == (0, 0, 0, 0) for d in bad):
             return ("[eof-diagnostic-at-origin] %d new diagnostic(s) with range 0:0-0:0, outside the edited method (lines %d..%d): %s"
